@@ -12,7 +12,7 @@ PROP = {
     "crash_is_violation": True,
     "volume": {"quick": 2},
     "technique": "property-based testing over a generated API table (catch_unwind totality on lattice arguments), exhaustive length/index sweeps with canaries, the same under AddressSanitizer, plus a libFuzzer target in the thorough tier",
-    "level_text": "Generated-input search over every public callable of the float types with degenerate arguments in every position (no panic allowed), complete enumeration of slice lengths and indices (documented panics exactly, canaries untouched), and the same sweeps in an ASan-instrumented nightly build with exact-size heap buffers. Exploration, not proof.",
+    "level_text": "Generated-input search over every public callable of the float types with degenerate arguments in every position (no panic allowed), complete enumeration of slice lengths and indices (documented panics exactly, canaries untouched), and the same sweeps in an ASan-instrumented nightly build with exact-size heap buffers. Further variants: libm, debug-glam-assert without debug assertions, an unoptimised AddressSanitizer build (stack temporaries and pointer casts really executed). Exploration, not proof.",
     "level_note": "Trusted: rustc, proptest, AddressSanitizer, the API-table generator (functions it cannot call are listed in the evidence under api_skipped). NEON/wasm32 not reachable.",
     "design_ref": "DESIGN.md section 5 C18",
     "assumptions": ["indices are valid and slices long enough in engine 1; engine 2 covers the invalid ones exactly"],
